@@ -143,6 +143,49 @@ theorem aphWeight_eq_one_sub_abs_error {τe τg : Rat} (he : InDom τe) (hg : In
 theorem wrapYaw_dom {τ0 τ : Rat} (h0 : InDom τ0) (h : InDom τ) : InDom (wrapYaw (τ + τ0)) :=
   wrapYaw_sum_inDom h h0
 
+/-! ## the analysis tool's yaw error column (`calculate_error("yaw")`)
+
+The second public place where a yaw error is reported for a pair. Its two masked wrap assignments compute the
+same function as `_clip` of `get_heading_error` (for *all* rationals), so range, magnitude and antisymmetry carry
+over; and because the analyzer brings every object to `BASE_LINK` first, the value is frame-free without the
+boundary exception. -/
+
+theorem analyzerYawError_eq_headingError (τe τg : Rat) : analyzerYawError τe τg = headingError τe τg := by
+  unfold analyzerYawError headingError clip
+  simp only []
+  split_ifs <;> linarith
+
+theorem analyzerYawError_range {τe τg : Rat} (he : InDom τe) (hg : InDom τg) :
+    -1 ≤ analyzerYawError τe τg ∧ analyzerYawError τe τg ≤ 1 := by
+  rw [analyzerYawError_eq_headingError]; exact headingError_range he hg
+
+/-- magnitude `d`, whichever of the two yaws is larger (raw difference beyond `±π` in either direction included) -/
+theorem analyzerYawError_abs_eq_d {τe τg : Rat} (he : InDom τe) (hg : InDom τg) :
+    absR (analyzerYawError τe τg) = circDist τe τg := by
+  rw [analyzerYawError_eq_headingError]; exact headingError_abs_eq_d he hg
+
+theorem analyzerYawError_antisymm (τe τg : Rat) : analyzerYawError τg τe = -analyzerYawError τe τg := by
+  rw [analyzerYawError_eq_headingError, analyzerYawError_eq_headingError]; exact headingError_antisymm τe τg
+
+/-- map → ego undoes ego → map on yaws -/
+theorem wrapYaw_roundtrip {τ0 τ : Rat} (h0 : InDom τ0) (h : InDom τ) : toEgoYaw τ0 (wrapYaw (τ + τ0)) = τ := by
+  obtain ⟨a1, a2⟩ := h0
+  obtain ⟨b1, b2⟩ := h
+  unfold toEgoYaw wrapYaw
+  split_ifs <;> linarith
+
+/-- the analyzer's yaw error does not depend on the frame the pair was expressed in -/
+theorem analyzerYawError_frame_invariant {τ0 τe τg : Rat} (h0 : InDom τ0) (he : InDom τe) (hg : InDom τg) :
+    analyzerYawErrorMap τ0 τe τg = analyzerYawError τe τg := by
+  unfold analyzerYawErrorMap
+  rw [wrapYaw_roundtrip h0 he, wrapYaw_roundtrip h0 hg]
+
+/-- a saturating clip is not the minimal difference: yaws `61/64` and `−61/64` are `3/32` apart; the wrap reports
+`3/32`, the saturating variant reports a full half turn (still inside `[−1, 1]`: a range check alone cannot see it) -/
+theorem saturating_not_minimal :
+    saturatingYawError (61/64) (-61/64) = -1 ∧ analyzerYawError (61/64) (-61/64) = 3/32 ∧
+      circDist (61/64) (-61/64) = 3/32 := by decide +kernel
+
 /-! ## F3 (pre-fix behaviour, documentation): `.radians` loses the sign of the yaw and replaces it by
 the sign convention of the quaternion -/
 
@@ -165,5 +208,8 @@ example : aphWeight 1 0 = 0 ∧ headingError 1 0 = -1 ∧ headingError 0 1 = 1 :
 example : aphWeightMap (1/2) (3/4) (1/4) = aphWeight (3/4) (1/4) ∧ wrapYaw (3/4 + 1/2) = -3/4 := by decide +kernel
 /-- the boundary exception of `headingError_frame_invariant` is real -/
 example : headingError 0 1 = 1 ∧ headingErrorMap (1/2) 0 1 = -1 := by decide +kernel
+/-- both wrap directions of the analyzer's column, and a map rendering that moves the pair across the cut -/
+example : analyzerYawError (-61/64) (61/64) = -3/32 ∧ analyzerYawError (61/64) (-61/64) = 3/32 ∧
+    analyzerYawErrorMap (1/2) (3/4) (1/4) = -1/2 := by decide +kernel
 
 end PEval.C09
